@@ -442,6 +442,22 @@ def run(ctx):
                        "in the exit loop, executeContent (%s) %s cancelInvoke (%s)" % (line_of(e), "precedes" if idx[id(e)] < idx[id(c)] else "FOLLOWS", line_of(c)))
     ctx.guard("R14.8", r8)
 
+    # ---------------------------------------------------------------- R14.9
+    ctx.rule("R14.9", "the id that ties a child session to its <invoke> (Invoke.doc_id, copied to ScxmlSession.invoke_doc_id and compared in exitStates "
+                      "and in the finalize lookup) is unique per <invoke>: the XML reader draws it from DOC_ID_COUNTER.fetch_add when the element is "
+                      "read (the deserializer restores it)")
+
+    def r9():
+        muts = mutations_of_field(F, "Invoke", "doc_id")
+        writers = sorted({fn.path for fn, n, kind, meth, par in muts if kind == "assign"})
+        reader_w = [(fn, par) for fn, n, kind, meth, par in muts if kind == "assign" and fn.path.startswith("scxml_reader::")]
+        drawn = [1 for fn, par in reader_w if any(c.get("k") == "mcall" and c["m"] == "fetch_add" and "DOC_ID_COUNTER" in describe(c["r"]) for c in hirq.walk(par["r"]))]
+        ctx.ob("R14.9", "reader assigns Invoke.doc_id from DOC_ID_COUNTER", bool(drawn), reader_w[0][0].where if reader_w else "",
+               "writers of Invoke.doc_id: %s; %d of them in the XML reader draw it from DOC_ID_COUNTER.fetch_add" % (writers or "NONE besides the constructor", len(drawn)))
+        uses = [fn.path for fn, n in field_uses(F, "Invoke", "doc_id")]
+        ctx.floor("R14.9", "uses of Invoke.doc_id", len(uses), 4)
+    ctx.guard("R14.9", r9)
+
 
 # ------------------------------------------------------------------------------------------ helpers
 _SOME = "std::prelude::v1::Some"
